@@ -481,6 +481,41 @@ def compare(ctx: Ctx, inp: dict, segs: list[str], reply: str, sqrt_ans: float = 
         return
 
 
+# --------------------------------------------------------------------------------------------- sum() of floats
+def pysum_stream(ctx: Ctx, n: int) -> None:
+    """`area([...])` uses the builtin `sum` over floats (Neumaier-compensated since CPython 3.12): the model's
+    `pySum` at `Float` must be bit-identical, and equal to the exact sum at `Rat`."""
+    import math
+    rng = ctx.rng
+    reqs, exp, inputs = [], [], []
+    for i in range(n):
+        k = rng.randint(0, 9)
+        kind = rng.randrange(5)
+        if kind == 0:
+            xs = [rng.uniform(-10, 10) for _ in range(k)]
+        elif kind == 1:
+            xs = [rng.choice([1e16, -1e16, 1.0, -1.0, 1e-16, 0.1, 3.0, 1e100, -1e100]) for _ in range(k)]
+        elif kind == 2:
+            xs = [rng.randint(0, 100) / 10 * rng.randint(1, 64) / 8 for _ in range(k)]
+        elif kind == 3:
+            xs = [rng.choice([math.inf, 1.0, -2.5, 1e308, 1e308, -0.0, 0.0]) for _ in range(k)]
+        else:
+            xs = [rng.randint(-64, 64) / 8 for _ in range(k)]
+        mode = "Q" if kind == 4 else "F"
+        got = float(sum(xs))
+        if got != got:
+            continue
+        reqs.append(f"{mode} pysum {len(xs)} " + " ".join(sc(x, mode) for x in xs))
+        exp.append(sc(got, mode))
+        inputs.append({"mode": mode, "op": "pysum", "xs": [repr(x) for x in xs]})
+        ctx.case("pysum-" + mode, tuple(xs), nontrivial=len(xs) > 1)
+    replies = ctx.model(reqs)
+    if replies is None:
+        return
+    for inp, e, r in zip(inputs, exp, replies):
+        if e != r and not (inp["mode"] == "F" and len(r) == 16 and hex2f(r) == hex2f(e)):
+            ctx.disagree("pysum", inp, e, r, size=len(inp["xs"]))
+
 # --------------------------------------------------------------------------------------------- exact geometry
 def cbb(c: dict):
     b = c.get("_bb")
